@@ -1,17 +1,22 @@
 package props
 
 import (
+	"bufio"
 	"bytes"
 	"encoding/json"
 	"encoding/xml"
 	"errors"
 	"fmt"
+	"hash/fnv"
 	"io"
 	"math"
+	"os"
 	"reflect"
 	"sort"
 	"strconv"
 	"strings"
+	"syscall"
+	"testing/iotest"
 
 	"github.com/go-openapi/runtime"
 	"github.com/go-openapi/runtime/yamlpc"
@@ -54,6 +59,13 @@ import (
 //	         scripted writer received; intact=1: byte slices handed in were not written to
 //	jaux     encoding/json.Marshal of an equal data value (hex, ! on error): the value of the
 //	         external JSON rendering the struct/slice branches delegate to
+//
+// Choices among equivalent ways of doing the same thing are drawn from a hash of the case's own fields
+// (c15Bits) and are no model input: the codec fresh or already used for another call; ClosesStream given once
+// or twice; where the scripted stream of the case is fault free and unscheduled, a real stream with the same
+// content in its place (bytes.Reader, strings.Reader, bytes.Buffer, bufio.Reader, *os.File; bytes.Buffer,
+// strings.Builder, *os.File as writers — with their Len/WriteTo/ReadFrom/Seek methods), closable through a
+// counting wrapper (or, for files, observed through a duplicated descriptor); an empty named byte slice nil or not.
 //
 // Stream J: round trip through an external library behind the JSON/XML/YAML codecs (a TEST).
 //
@@ -245,6 +257,102 @@ type c15WC struct{ s *c15Snk }
 func (w *c15WC) Write(p []byte) (int, error) { return w.s.write(p) }
 func (w *c15WC) Close() error                { return w.s.close() }
 
+// c15Bits: a hash of the case's own fields, the source of every choice that is not a model input.
+func c15Bits(fields []string) uint32 {
+	h := fnv.New32a()
+	for _, f := range fields {
+		_, _ = h.Write([]byte(f))
+		_, _ = h.Write([]byte{0})
+	}
+	return h.Sum32()
+}
+
+// real in-memory streams made closable: every method of the embedded reader/writer stays visible to the
+// codecs (Len, WriteTo, ReadFrom, Seek …); Close is counted by the scripted stream of the case.
+type c15BytesRC struct {
+	*bytes.Reader
+	s *c15Src
+}
+
+func (r c15BytesRC) Close() error { return r.s.close() }
+
+type c15StringsRC struct {
+	*strings.Reader
+	s *c15Src
+}
+
+func (r c15StringsRC) Close() error { return r.s.close() }
+
+type c15BufferRC struct {
+	*bytes.Buffer
+	s *c15Src
+}
+
+func (r c15BufferRC) Close() error { return r.s.close() }
+
+type c15BufioRC struct {
+	*bufio.Reader
+	s *c15Src
+}
+
+func (r c15BufioRC) Close() error { return r.s.close() }
+
+type c15BufferWC struct {
+	*bytes.Buffer
+	s *c15Snk
+}
+
+func (w c15BufferWC) Close() error { return w.s.close() }
+
+type c15BuilderWC struct {
+	*strings.Builder
+	s *c15Snk
+}
+
+func (w c15BuilderWC) Close() error { return w.s.close() }
+
+// c15File: a real file holding content, positioned at its start, and a duplicate of its descriptor (same
+// open file description, hence same offset) through which the offset stays readable after a Close.
+func c15File(content []byte) (f *os.File, dup int) {
+	f, err := os.CreateTemp("", "c15-")
+	if err != nil {
+		panic(err)
+	}
+	_ = os.Remove(f.Name()) // lives as long as it is open
+	if _, err := f.Write(content); err != nil {
+		panic(err)
+	}
+	if _, err := f.Seek(0, io.SeekStart); err != nil {
+		panic(err)
+	}
+	dup, err = syscall.Dup(int(f.Fd()))
+	if err != nil {
+		panic(err)
+	}
+	return f, dup
+}
+
+// c15FileDone: offset and size seen through the duplicate, whether the codec had closed the file, its content.
+func c15FileDone(f *os.File, dup int) (offset, size int, closed bool, content []byte) {
+	defer syscall.Close(dup)
+	closed = errors.Is(f.Close(), os.ErrClosed)
+	off, err := syscall.Seek(dup, 0, io.SeekCurrent)
+	if err != nil {
+		panic(err)
+	}
+	var st syscall.Stat_t
+	if err := syscall.Fstat(dup, &st); err != nil {
+		panic(err)
+	}
+	content = make([]byte, st.Size)
+	if st.Size > 0 {
+		if n, err := syscall.Pread(dup, content, 0); err != nil || n != int(st.Size) {
+			panic("C15: short read of the sink file")
+		}
+	}
+	return int(off), int(st.Size), closed, content
+}
+
 type c15Str string
 type c15Bytes []byte
 
@@ -304,6 +412,60 @@ type c15Sg struct{ s string }
 
 func (s c15Sg) String() string { return s.s }
 
+// Kinds with several text methods at once: each method answers with a different text, so the method a
+// codec chose shows in what it writes (RtVerif.C15.ePre / sPre): Marshal… return the content, Error()
+// "E:"+content, String() "S:"+content. All with pointer receivers.
+
+// c15TES: encoding.TextMarshaler + error + fmt.Stringer.
+type c15TES struct {
+	b    []byte
+	fail int
+}
+
+func (x *c15TES) MarshalText() ([]byte, error) {
+	if x.fail != 0 {
+		return nil, c15MErr(x.fail)
+	}
+	return append([]byte{}, x.b...), nil
+}
+func (x *c15TES) Error() string  { return "E:" + string(x.b) }
+func (x *c15TES) String() string { return "S:" + string(x.b) }
+
+// c15ES: error + fmt.Stringer.
+type c15ES struct{ b []byte }
+
+func (x *c15ES) Error() string  { return "E:" + string(x.b) }
+func (x *c15ES) String() string { return "S:" + string(x.b) }
+
+// c15TS: encoding.TextMarshaler + fmt.Stringer.
+type c15TS struct {
+	b    []byte
+	fail int
+}
+
+func (x *c15TS) MarshalText() ([]byte, error) {
+	if x.fail != 0 {
+		return nil, c15MErr(x.fail)
+	}
+	return append([]byte{}, x.b...), nil
+}
+func (x *c15TS) String() string { return "S:" + string(x.b) }
+
+// c15BES: encoding.BinaryMarshaler + error + fmt.Stringer.
+type c15BES struct {
+	b    []byte
+	fail int
+}
+
+func (x *c15BES) MarshalBinary() ([]byte, error) {
+	if x.fail != 0 {
+		return nil, c15MErr(x.fail)
+	}
+	return append([]byte{}, x.b...), nil
+}
+func (x *c15BES) Error() string  { return "E:" + string(x.b) }
+func (x *c15BES) String() string { return "S:" + string(x.b) }
+
 // c15Kinds lists every kind of data value.
 var c15Kinds = []string{
 	"nil", "str", "nstr", "pstr", "pnstr", "pstrNil", "byt", "nbyt", "pbyt", "pnbyt", "pbytNil",
@@ -311,6 +473,7 @@ var c15Kinds = []string{
 	"strct", "pstrct", "pstrctNil", "slc", "pslc", "ppstr", "mp",
 	"buf", "bufNil", "wr", "wrNil", "rd", "rdc", "rdcNil", "wtc",
 	"bin", "binNil", "txt", "txtNil", "err", "errNil", "strg", "pstrgNil",
+	"tes", "tesNil", "es", "ts", "bes",
 }
 
 // c15Make builds the data value of a kind; get reads its content back.
@@ -342,6 +505,9 @@ func c15Make(kind, content string, flag int, src *c15Src, snk *c15Snk) (data int
 		return b, tag("b", func() string { return string(b) })
 	case "nbyt":
 		b := c15Bytes(content)
+		if content == "" && len(src.data)%2 == 0 {
+			b = nil // empty named byte slices: nil on every other case
+		}
 		return b, tag("b", func() string { return string(b) })
 	case "pbyt":
 		b := []byte(content)
@@ -351,6 +517,9 @@ func c15Make(kind, content string, flag int, src *c15Src, snk *c15Snk) (data int
 		return &b, tag("b", func() string { return string(b) })
 	case "pnbyt":
 		b := c15Bytes(content)
+		if content == "" && len(src.data)%2 == 0 {
+			b = nil
+		}
 		return &b, tag("b", func() string { return string(b) })
 	case "pbytNil":
 		return (*[]byte)(nil), none
@@ -361,6 +530,9 @@ func c15Make(kind, content string, flag int, src *c15Src, snk *c15Snk) (data int
 			x = content
 		case "pifByt":
 			x = []byte(content)
+			if content == "" && len(src.data)%2 == 0 {
+				x = []byte(nil) // still a []byte in the interface
+			}
 		case "pifInt":
 			x = 42
 		}
@@ -436,6 +608,20 @@ func c15Make(kind, content string, flag int, src *c15Src, snk *c15Snk) (data int
 		return c15Sg{content}, tag("s", func() string { return content })
 	case "pstrgNil":
 		return (*c15Sg)(nil), none
+	case "tes":
+		x := &c15TES{b: []byte(content), fail: flag}
+		return x, tag("b", func() string { return string(x.b) })
+	case "tesNil":
+		return (*c15TES)(nil), none
+	case "es":
+		x := &c15ES{b: []byte(content)}
+		return x, tag("b", func() string { return string(x.b) })
+	case "ts":
+		x := &c15TS{b: []byte(content), fail: flag}
+		return x, tag("b", func() string { return string(x.b) })
+	case "bes":
+		x := &c15BES{b: []byte(content), fail: flag}
+		return x, tag("b", func() string { return string(x.b) })
 	}
 	panic("C15: unknown kind " + kind)
 }
@@ -596,7 +782,7 @@ func c15ExecX(in []string) []string {
 	data, get := c15Make(kind, content, flag, src, snk)
 	sig := c15Sig(data)
 	// a second, equal value for the external JSON rendering
-	twin, _ := c15Make(kind, content, flag, &c15Src{term: io.EOF}, &c15Snk{limit: -1})
+	twin, _ := c15Make(kind, content, flag, &c15Src{data: make([]byte, len(src.data)), term: io.EOF}, &c15Snk{limit: -1}) // (same length: same nil-ness of empty slices)
 	jaux := "!"
 	if j, err := json.Marshal(twin); err == nil {
 		jaux = proto.B(string(j))
@@ -625,6 +811,15 @@ func c15ExecX(in []string) []string {
 	}
 	snapshot = append(snapshot, handed...)
 
+	bits := c15Bits(in)
+	// what is reported about the two streams of the case: from the scripted ones unless a real one stands in
+	rcloses := func() int { return src.closes }
+	rleft := func() int { return len(src.data) }
+	wcloses := func() int { return snk.closes }
+	wgot := func() []byte { return snk.got }
+	snkPlain := in[13] == "." && in[14] == "-1" && in[15] == "0" // the scripted writer takes everything, honestly
+	srcPlain := in[9] == "eof" && in[11] == "." && snkPlain      // the scripted reader just delivers, then EOF
+
 	var err error
 	switch dir {
 	case "c":
@@ -644,10 +839,63 @@ func c15ExecX(in []string) []string {
 		default:
 			panic("C15: bad stream " + stream)
 		}
+		if which := (bits >> 8) % 20; srcPlain && stream != "n" && which < 7 {
+			// the same bytes from a real stream
+			content := append([]byte{}, src.data...)
+			switch {
+			case which == 6 && stream == "c" && src.cerr == nil && bits>>16%4 == 0:
+				f, dup := c15File(content)
+				reader = f
+				var off, size int
+				var closed, done bool
+				finish := func() {
+					if !done {
+						off, size, closed, _ = c15FileDone(f, dup)
+						done = true
+					}
+				}
+				rleft = func() int { finish(); return size - off }
+				rcloses = func() int {
+					finish()
+					if closed {
+						return 1
+					}
+					return 0
+				}
+			case which%4 == 0:
+				rd := bytes.NewReader(content)
+				reader, rleft = rd, rd.Len
+				if stream == "c" {
+					reader = c15BytesRC{rd, src}
+				}
+			case which%4 == 1:
+				rd := strings.NewReader(string(content))
+				reader, rleft = rd, rd.Len
+				if stream == "c" {
+					reader = c15StringsRC{rd, src}
+				}
+			case which%4 == 2:
+				rd := bytes.NewBuffer(content)
+				reader, rleft = rd, rd.Len
+				if stream == "c" {
+					reader = c15BufferRC{rd, src}
+				}
+			default:
+				under := bytes.NewReader(content)
+				rd := bufio.NewReaderSize(under, 16+int(bits>>20%64))
+				reader = rd
+				rleft = func() int { return under.Len() + rd.Buffered() }
+				if stream == "c" {
+					reader = c15BufioRC{rd, src}
+				}
+			}
+		}
 		var cons runtime.Consumer
 		switch codec {
 		case "b":
-			if closeOpt {
+			if closeOpt && bits>>4%4 == 0 {
+				cons = runtime.ByteStreamConsumer(runtime.ClosesStream, runtime.ClosesStream) // options are a list
+			} else if closeOpt {
 				cons = runtime.ByteStreamConsumer(runtime.ClosesStream)
 			} else {
 				cons = runtime.ByteStreamConsumer()
@@ -658,6 +906,12 @@ func c15ExecX(in []string) []string {
 			cons = runtime.DiscardConsumer
 		default:
 			panic("C15: bad codec " + codec)
+		}
+		if bits>>6%2 == 1 {
+			// a codec is made once and serves many calls: this one has served another stream and destination
+			var warm string
+			_ = cons.Consume(io.NopCloser(strings.NewReader("warm-up content")), &warm)
+			_ = cons.Consume(nil, nil)
 		}
 		err = cons.Consume(reader, data)
 	case "p":
@@ -671,10 +925,48 @@ func c15ExecX(in []string) []string {
 		default:
 			panic("C15: bad stream " + stream)
 		}
+		if which := (bits >> 8) % 20; snkPlain && stream != "n" && which < 6 {
+			// a real sink
+			switch {
+			case which == 5 && stream == "c" && snk.cerr == nil && bits>>16%4 == 0:
+				f, dup := c15File(nil)
+				writer = f
+				var content []byte
+				var closed, done bool
+				finish := func() {
+					if !done {
+						_, _, closed, content = c15FileDone(f, dup)
+						done = true
+					}
+				}
+				wgot = func() []byte { finish(); return content }
+				wcloses = func() int {
+					finish()
+					if closed {
+						return 1
+					}
+					return 0
+				}
+			case which%2 == 0:
+				b := &bytes.Buffer{}
+				writer, wgot = b, b.Bytes
+				if stream == "c" {
+					writer = c15BufferWC{b, snk}
+				}
+			default:
+				b := &strings.Builder{}
+				writer, wgot = b, func() []byte { return []byte(b.String()) }
+				if stream == "c" {
+					writer = c15BuilderWC{b, snk}
+				}
+			}
+		}
 		var prod runtime.Producer
 		switch codec {
 		case "b":
-			if closeOpt {
+			if closeOpt && bits>>4%4 == 0 {
+				prod = runtime.ByteStreamProducer(runtime.ClosesStream, runtime.ClosesStream)
+			} else if closeOpt {
 				prod = runtime.ByteStreamProducer(runtime.ClosesStream)
 			} else {
 				prod = runtime.ByteStreamProducer()
@@ -686,12 +978,16 @@ func c15ExecX(in []string) []string {
 		default:
 			panic("C15: bad codec " + codec)
 		}
+		if bits>>6%2 == 1 {
+			_ = prod.Produce(c15BufferWC{&bytes.Buffer{}, &c15Snk{limit: -1}}, "warm-up content")
+			_ = prod.Produce(nil, nil)
+		}
 		err = prod.Produce(writer, data)
 	default:
 		panic("C15: bad direction " + dir)
 	}
-	return []string{c15Res(err), sig, get(), proto.N(src.closes), proto.N(len(src.data)), proto.N(snk.closes),
-		proto.B(string(snk.got)), proto.Bool(bytes.Equal(handed, snapshot)), jaux}
+	return []string{c15Res(err), sig, get(), proto.N(rcloses()), proto.N(rleft()), proto.N(wcloses()),
+		proto.B(string(wgot())), proto.Bool(bytes.Equal(handed, snapshot)), jaux}
 }
 
 func c15Exec(in []string) []string {
@@ -1009,13 +1305,71 @@ func c15ExecJ(in []string) []string {
 			orig = &c15NMap{"k": t, "l": []interface{}{t}}
 			dest = &c15NMap{}
 		}
+	case "map", "list", "scalar":
+		// the other top-level values a body can be: an object into a plain map, an array into a slice, a bare
+		// string / number / boolean / null into an interface{}
+		if codec == "x" {
+			panic("C15: encoding/xml has no generic values")
+		}
+		switch shape {
+		case "map":
+			m := map[string]interface{}{}
+			for i, n := 0, r.Intn(4); i < n; i++ {
+				m["k"+proto.N(i)] = c15JTree(r, codec, 2)
+			}
+			orig, dest = m, &map[string]interface{}{}
+		case "list":
+			l := []interface{}{}
+			for i, n := 0, r.Intn(4); i < n; i++ {
+				l = append(l, c15JTree(r, codec, 2))
+			}
+			orig, dest = l, &[]interface{}{}
+		default:
+			t := c15JTree(r, codec, 0)
+			var d interface{}
+			orig, dest = t, &d
+		}
+	case "pdoc":
+		// a destination that is a pointer to a nil pointer: the decoder allocates
+		var d *c15Doc
+		orig, dest = c15JDoc(r, codec), &d
 	default:
 		panic("C15: bad shape " + shape)
 	}
+	// equivalent ways of making the same round trip, drawn from the seed (no model input)
+	bits := c15Bits(in)
+	if bits%2 == 1 {
+		// producer and consumer are made once and serve many bodies: these have served another one before
+		var warm bytes.Buffer
+		var back c15Doc
+		_ = prod.Produce(&warm, &c15Doc{XMLName: xml.Name{Local: "doc"}, Name: "warm-up", I: 7, Items: []string{"<w>"}})
+		_ = cons.Consume(&warm, &back)
+	}
 	var wire bytes.Buffer
-	perr := prod.Produce(&wire, orig)
+	var perr error
+	if bits>>1%2 == 1 {
+		// a writer that is no bytes.Buffer (Write only)
+		snk := &c15Snk{limit: -1}
+		perr = prod.Produce(&c15W{snk}, orig)
+		wire.Write(snk.got)
+	} else {
+		perr = prod.Produce(&wire, orig)
+	}
 	w := wire.String()
-	cerr := cons.Consume(&wire, dest)
+	var body io.Reader = &wire
+	switch bits >> 2 % 6 {
+	case 1:
+		body = iotest.OneByteReader(&wire)
+	case 2:
+		body = iotest.DataErrReader(&wire) // the last bytes together with EOF
+	case 3:
+		body = iotest.HalfReader(&wire)
+	case 4:
+		body = strings.NewReader(w)
+	case 5:
+		body = bufio.NewReaderSize(&wire, 16)
+	}
+	cerr := cons.Consume(body, dest)
 	errName := func(err error) string {
 		if err == nil {
 			return "ok"
@@ -1132,7 +1486,7 @@ func c15Caps(r *proto.Rng) string {
 
 var c15DstKinds = []string{"pstr", "pnstr", "pbyt", "pnbyt", "pifStr", "pifByt", "buf", "wr", "bin", "txt"}
 var c15SrcKinds = []string{"str", "nstr", "pstr", "pnstr", "byt", "nbyt", "pbyt", "pnbyt", "buf", "wtc", "rd", "rdc",
-	"bin", "txt", "err", "strg", "strct", "pstrct", "slc", "pslc"}
+	"bin", "txt", "err", "strg", "strct", "pstrct", "slc", "pslc", "tes", "es", "ts", "bes"}
 
 func c15Case(r *proto.Rng, tier string, emit func(in ...string)) {
 	if r.Chance(1, 250) {
@@ -1258,7 +1612,7 @@ func c15Exhaustive(emit func(in ...string), full bool) {
 									continue
 								}
 								for _, flag := range []string{"0", "5"} {
-									if flag == "5" && kind != "bin" && kind != "txt" {
+									if flag == "5" && kind != "bin" && kind != "txt" && kind != "tes" && kind != "ts" && kind != "bes" {
 										continue
 									}
 									emit("X", dir, codec, cl, stream, kind, proto.B(content), flag,
@@ -1306,11 +1660,11 @@ func c15Exhaustive(emit func(in ...string), full bool) {
 			}
 		}
 		for lim := 0; lim <= n+1; lim++ {
-			for _, kind := range []string{"str", "pbyt", "buf", "wtc", "bin", "err"} {
+			for _, kind := range []string{"str", "pbyt", "buf", "wtc", "bin", "err", "tes", "bes"} {
 				emit("X", "p", "b", "1", "c", kind, proto.B(data), "0", "-", "eof", "0", ".", "0", ".", proto.N(lim), "0", "0")
 				emit("X", "p", "b", "1", "c", kind, proto.B(data), "0", "-", "eof", "0", ".", "0", proto.N(lim+1), "-1", "0", "0")
 			}
-			for _, kind := range []string{"str", "txt", "err", "strg", "buf"} {
+			for _, kind := range []string{"str", "txt", "err", "strg", "buf", "tes", "es", "ts", "bes"} {
 				emit("X", "p", "t", "0", "c", kind, proto.B(data), "0", "-", "eof", "0", ".", "0", ".", proto.N(lim), "0", "0")
 			}
 		}
@@ -1328,6 +1682,13 @@ func c15Gen(r *proto.Rng, n int, tier string, emit func(in ...string)) {
 			for _, rounds := range []int{1, 3, 20} {
 				emit("Y", codec, kind, proto.B("first payload "+r.Bytes("abcdefgh", 8)), proto.B("SECOND PAYLOAD "+r.Bytes("ABCDEFGH", 12)), proto.N(rounds))
 			}
+			// later payloads shorter, much longer (any buffer kept between calls has to grow), empty; a first payload
+			// that is empty or large
+			emit("Y", codec, kind, proto.B("first payload "+r.Bytes("abcdefgh", 8)), proto.B("2"), proto.N(2))
+			emit("Y", codec, kind, proto.B("first payload "+r.Bytes("abcdefgh", 8)), proto.B(r.Bytes("ABCDEFGH", 3000+r.Intn(3000))), proto.N(4))
+			emit("Y", codec, kind, proto.B("first payload "+r.Bytes("abcdefgh", 8)), proto.B(""), proto.N(1))
+			emit("Y", codec, kind, proto.B(""), proto.B("SECOND PAYLOAD "+r.Bytes("ABCDEFGH", 12)), proto.N(3))
+			emit("Y", codec, kind, proto.B(r.Bytes("abcdefgh", 600+r.Intn(5000))), proto.B(r.Bytes("ABCDEFGH", 600+r.Intn(5000))), proto.N(5))
 		}
 	}
 	nj := n / 8
@@ -1342,6 +1703,12 @@ func c15Gen(r *proto.Rng, n int, tier string, emit func(in ...string)) {
 		}
 		if codec == "j" && r.Chance(1, 3) {
 			shape = r.Pick("wrap", "nmap")
+		}
+		if r.Chance(1, 4) {
+			shape = "pdoc"
+			if codec != "x" {
+				shape = r.Pick("map", "list", "scalar", "pdoc")
+			}
 		}
 		emit("J", codec, shape, proto.N(r.Intn(1<<30)))
 	}
@@ -1359,6 +1726,8 @@ func c15Alias(in []string) []string {
 	var cons runtime.Consumer
 	if codec == "t" {
 		cons = runtime.TextConsumer()
+	} else if rounds%2 == 0 {
+		cons = runtime.ByteStreamConsumer(runtime.ClosesStream) // (the sources below have no Close: nothing to close)
 	} else {
 		cons = runtime.ByteStreamConsumer()
 	}
